@@ -29,6 +29,7 @@ import (
 	"github.com/lightninglabs/pool/order"
 	"github.com/lightninglabs/pool/poolscript"
 	"github.com/lightninglabs/pool/terms"
+	"github.com/lightningnetwork/lnd/chainntnfs"
 	"github.com/lightningnetwork/lnd/input"
 	"github.com/lightningnetwork/lnd/keychain"
 	"github.com/lightningnetwork/lnd/lnrpc/signrpc"
@@ -428,7 +429,8 @@ func (w *c04Wallet) SignPsbt(_ context.Context, packet *psbt.Packet) (*psbt.Pack
 }
 
 type c04Store struct {
-	acct *account.Account
+	acct         *account.Account
+	pendingAsked bool
 }
 
 func (s *c04Store) AddAccount(a *account.Account) error { s.acct = a; return nil }
@@ -443,7 +445,10 @@ func (s *c04Store) Account(*btcec.PublicKey) (*account.Account, error) {
 	return s.acct.Copy(), nil
 }
 func (s *c04Store) Accounts() ([]*account.Account, error) { return []*account.Account{s.acct}, nil }
-func (s *c04Store) PendingBatch() error                   { return account.ErrNoPendingBatch }
+func (s *c04Store) PendingBatch() error {
+	s.pendingAsked = true
+	return account.ErrNoPendingBatch
+}
 func (s *c04Store) MarkBatchComplete() error              { return nil }
 func (s *c04Store) LockID() (wtxmgr.LockID, error)        { return wtxmgr.LockID{1}, nil }
 
@@ -920,6 +925,39 @@ func c04Classify(w wire.TxWitness) string {
 	return "unknown"
 }
 
+// c04HandlerClass runs the real manager.HandleAccountSpend on the spend and
+// reports which branch of its switch was taken: the cooperative branch is the
+// only one that asks the store for a pending batch; an unknown witness is an
+// error.
+func c04HandlerClass(k *c04Keys, tx *wire.MsgTx, idx int) (class string) {
+	store := &c04Store{acct: k.acct(account.StatePendingClosed)}
+	mgr := account.NewManager(&account.ManagerConfig{
+		Store: store, Auctioneer: &c04Auctioneer{}, Wallet: &c04Wallet{}, Signer: newC04Signer(k.trader),
+		ChainParams: &chaincfg.TestNet3Params,
+		LndVersion:  &verrpc.Version{AppMajor: 0, AppMinor: 15, AppPatch: 1},
+	})
+	defer func() {
+		if e := recover(); e != nil {
+			class = "multisig"
+			if !store.pendingAsked {
+				class = fmt.Sprintf("panic:%v", e)
+			}
+		}
+	}()
+	err := mgr.HandleAccountSpend(k.trader.PubKey(), &chainntnfs.SpendDetail{
+		SpendingTx: tx, SpenderInputIndex: uint32(idx), SpendingHeight: 100,
+	})
+	switch {
+	case err != nil && strings.Contains(err.Error(), "unknown spend witness"):
+		return "unknown"
+	case store.pendingAsked:
+		return "multisig"
+	case err != nil:
+		return "error:" + err.Error()
+	}
+	return "expiry"
+}
+
 func c04B(b bool) string {
 	if b {
 		return "1"
@@ -1069,6 +1107,12 @@ func c04Run(r *Run, p *c04Params) {
 	default:
 		expect, what = "valid", "a spend signed by trader and auctioneer must be valid at any lock time"
 	}
+	if (p.Path == "close" || p.Path == "renew") && !foreign && expect == "invalid" &&
+		!(p.StateExpired && p.LockTime < p.Expiry) {
+		// Pool's own spend of its own account must be valid, except in the
+		// stated corner (State == Expired handed a best height below expiry)
+		expect, what = "valid", "the spend Pool's account manager builds for its own account must be valid"
+	}
 	r.Count("expect/" + expect)
 	if (expect == "valid") != ok {
 		r.Count("oracle/violation")
@@ -1080,6 +1124,13 @@ func c04Run(r *Run, p *c04Params) {
 		want := "multisig"
 		if isExpiryShape {
 			want = "expiry"
+		}
+		if hc := c04HandlerClass(ck, sp.tx, sp.idx); hc != class {
+			r.Count("oracle/violation")
+			r.Violate(fmt.Sprintf("manager.HandleAccountSpend takes the %s branch for a witness the classifiers "+
+				"put in %s (version %d, expiry %d)", hc, class, p.Version, p.Expiry), "C04/handler", p)
+		} else {
+			r.Count("handler/" + hc)
 		}
 		if class != want {
 			r.Count("oracle/violation")
